@@ -17,6 +17,19 @@ var typePool = []Ty{tInt(), tIntR(0, 5), tIntR(1, 3), tStr(), tBool(), tOpt(tInt
 	tOpt(tIntR(0, 5)), tArr(tStr()), tInt(), tStr(),
 	tAny(), tVarU(tStr()), tVarU(tIntR(0, 5)), tUndef(), tArr(tVarU(tInt())), tOpt(tVarU(tStr()))}
 
+// Struct types (the init-type derivation typeAndInit rebuilds them member by member): an explicitly optional key
+// whose value type does not accept undef, the conventional optional member ('x' => Optional[T]), a NotUndef key,
+// below Array / Optional / Variant[Undef, .] and nested; values leave optional members out
+var sXY = tStruct(smOpt("x", tInt()), sm("y", tStr()))
+var sConv = tStruct(sm("x", tOpt(tInt())), sm("y", tStr()))
+var sMN = tStruct(sm("m", tInt()), smOpt("n", tIntR(0, 5)))
+var sP = tStruct(smOpt("p", tBool()))
+var sNest = tStruct(sm("in", tStruct(smOpt("x", tInt()))), smOpt("q", tArr(tInt())))
+var sNotU = tStruct(smNotU("u", tAny()), smOpt("w", tStr()))
+var structPool = []Ty{sXY, sConv, tArr(sMN), tOpt(sXY), tVarU(sP), sNest, sNotU, sMN}
+
+func init() { typePool = append(typePool, structPool...) }
+
 var intPool = []int64{0, 1, 2, 3, 5, 7}
 var strPool = []string{"", "x", "y"}
 
@@ -70,13 +83,23 @@ func valueOf(r *lib.Rng, t Ty) RV {
 			return vUndef()
 		}
 		return valueOf(r, *t.E)
+	case "struct":
+		h := []KV{}
+		for _, m := range t.sortedMembers() {
+			if !m.required() && r.Bool() {
+				continue // a member that may be left out
+			}
+			h = append(h, KV{m.N, valueOf(r, m.T)})
+		}
+		return vHash(h...)
 	}
 	return vUndef()
 }
 
 // notValueOf draws a value that is NOT an instance of t.
 func notValueOf(r *lib.Rng, t Ty) RV {
-	cands := []RV{vStr("x"), vInt(9), vBool(true), vUndef(), vArr(vInt(1)), vArr(vStr("x")), vInt(-4)}
+	cands := []RV{vStr("x"), vInt(9), vBool(true), vUndef(), vArr(vInt(1)), vArr(vStr("x")), vInt(-4),
+		vHash(KV{"zz", vInt(1)}), vHash(KV{"x", vStr("no")}, KV{"y", vStr("v")}), vHash()}
 	for k := 0; k < 20; k++ {
 		c := cands[r.Intn(len(cands))]
 		if !instOf(t, c) {
@@ -116,6 +139,25 @@ func narrower(r *lib.Rng, t Ty) Ty {
 			return tOpt(narrower(r, *t.E))
 		}
 		return tVarU(narrower(r, *t.E))
+	case "struct":
+		// narrow member types, make a member that may be left out required, drop one that may be left out
+		out := Ty{K: "struct"}
+		for _, m := range t.M {
+			if !m.required() && r.Chance(1, 4) {
+				continue
+			}
+			if r.Chance(1, 3) {
+				m.T = narrower(r, m.T)
+			}
+			if m.Opt && r.Chance(1, 3) {
+				m.Opt = false
+			}
+			out.M = append(out.M, m)
+		}
+		if len(out.M) == 0 {
+			return t
+		}
+		return out
 	}
 	return t
 }
@@ -195,10 +237,20 @@ func genAttr(r *lib.Rng, name string) AttrSpec {
 		}
 	}
 	a.Short = r.Chance(3, 5)
-	if r.Chance(1, 8) && (a.Short && a.canShort() || isTypeName(a.Type.Text())) {
+	if r.Chance(1, 8) && (a.Short && a.canShort() || isTypeName(a.Type.Text())) && !hasQuote(a.Type.Text()) {
 		a.TypeStr = true
 	}
 	return a
+}
+
+// hasQuote: the text of the type cannot be written inside a single-quoted String literal (Struct keys)
+func hasQuote(s string) bool {
+	for i := 0; i < len(s); i++ {
+		if s[i] == '\'' {
+			return true
+		}
+	}
+	return false
 }
 
 func genConstValue(r *lib.Rng) RV {
@@ -587,7 +639,7 @@ func breakSpec(r *lib.Rng, d *DefSpec, parent *RefType, used map[string]bool) st
 			}
 		}
 	case 18:
-		if a := pickAttr(func(a *AttrSpec) bool { return !isTypeName(a.Type.Text()) }); a != nil {
+		if a := pickAttr(func(a *AttrSpec) bool { return !isTypeName(a.Type.Text()) && !hasQuote(a.Type.Text()) }); a != nil {
 			a.TypeStr, a.Short = true, false
 			if a.canShort() {
 				a.Final = bp(false)
@@ -909,6 +961,19 @@ var shapes = []func(name string) (AttrSpec, bool){
 		return AttrSpec{Name: n, Type: tVarU(tInt()), Kind: "given_or_derived"}, true
 	},
 	func(n string) (AttrSpec, bool) { return AttrSpec{Name: n, Type: tAny(), Short: true}, true },
+	// a Struct type with an explicitly optional member: required, and with a default that leaves the member out
+	func(n string) (AttrSpec, bool) { return AttrSpec{Name: n, Type: sXY, Short: true}, true },
+	func(n string) (AttrSpec, bool) {
+		return AttrSpec{Name: n, Type: sXY, HasValue: true, Value: vHash(KV{"y", vStr("d")})}, true
+	},
+}
+
+// exhPool: the two values every tuple of the exhaustive family draws from, by the type of the attribute
+func exhPool(t Ty) []RV {
+	if instOf(t, vInt(1)) {
+		return []RV{vInt(1), vInt(3)}
+	}
+	return []RV{vHash(KV{"y", vStr("v")}), vHash(KV{"x", vInt(1)}, KV{"y", vStr("d")})}
 }
 
 func exhaustiveCount() int { return len(shapes) * len(shapes) * 6 * 4 }
@@ -935,19 +1000,18 @@ func exhaustiveWorlds(emit func(w *World)) int {
 					if wellFormed(d, map[string]*RefType{}) == "" {
 						ref := refOf(d, map[string]*RefType{})
 						attrs, req := ctorOrder(ref)
-						pool := []RV{vInt(1), vInt(3)}
-						// all positional tuples of every admissible length over the pool
+						// all positional tuples of every admissible length over the pools
 						for k := req; k <= len(attrs); k++ {
 							total := 1
 							for i := 0; i < k; i++ {
-								total *= len(pool)
+								total *= 2
 							}
 							for code := 0; code < total; code++ {
 								args := make([]RV, k)
 								c := code
 								for i := 0; i < k; i++ {
-									args[i] = pool[c%len(pool)]
-									c /= len(pool)
+									args[i] = exhPool(attrs[i].Ty)[c%2]
+									c /= 2
 								}
 								w.News = append(w.News, NewReq{T: 0, Args: args})
 							}
@@ -967,7 +1031,7 @@ func exhaustiveWorlds(emit func(w *World)) int {
 							if at.Ty.acceptsUndef() {
 								h = append(h, KV{at.Name, vUndef()})
 							} else {
-								h = append(h, KV{at.Name, vInt(3)})
+								h = append(h, KV{at.Name, exhPool(at.Ty)[1]})
 							}
 						}
 						w.News = append(w.News, NewReq{T: 0, Named: true, Hash: h})
@@ -1065,6 +1129,41 @@ func corpusWorlds() []*World {
 	ws = append(ws, mk("corpus", []*DefSpec{{Name: "Ta", Attrs: []AttrSpec{{Name: "u", Type: tAny(), Short: true}, {Name: "b", Type: tInt(), HasValue: true, Value: vInt(3)}}}}, []string{"text"},
 		[]NewReq{{T: 0, Args: []RV{vUndef()}}, {T: 0, Named: true, Hash: []KV{{"u", vUndef()}}}, {T: 0, Args: []RV{vHash(KV{"zz", vInt(1)})}}, {T: 0, Args: []RV{}},
 			{T: 0, Named: true, Hash: []KV{{"u", vInt(1)}, {"b", vInt(3)}}}, {T: 0, Args: []RV{vInt(1)}}}))
+	// attributes of a Struct type with an explicitly optional member whose value type does not accept undef
+	// (Optional['x'] => Integer), directly, with a default, below Array / Optional / Variant[Undef, .], nested and
+	// with a NotUndef key: a value that leaves the member out is given positionally, by name, as the default, and
+	// comes back through the init-hash; the conventional form 'x' => Optional[Integer] for comparison
+	yv := vHash(KV{"y", vStr("v")})
+	xyv := vHash(KV{"x", vInt(2)}, KV{"y", vStr("v")})
+	for _, route := range []string{"text", "hash"} {
+		for _, st := range []Ty{sXY, sConv} {
+			ws = append(ws, mk("corpus", []*DefSpec{{Name: "Ta", Attrs: []AttrSpec{{Name: "a", Type: tInt(), Short: true}, {Name: "s", Type: st, Short: true}}}}, []string{route},
+				[]NewReq{{T: 0, Args: []RV{vInt(1), yv}}, {T: 0, Named: true, Hash: []KV{{"a", vInt(1)}, {"s", yv}}}, {T: 0, Args: []RV{vInt(1), xyv}},
+					{T: 0, Named: true, Hash: []KV{{"s", xyv}, {"a", vInt(1)}}}, {T: 0, Args: []RV{vInt(1), vHash(KV{"x", vInt(2)})}},
+					{T: 0, Named: true, Hash: []KV{{"a", vInt(1)}, {"s", vHash(KV{"y", vStr("v")}, KV{"z", vInt(1)})}}}}))
+		}
+		mv := vArr(vHash(KV{"m", vInt(3)}))
+		ws = append(ws, mk("corpus", []*DefSpec{{Name: "Ta", Attrs: []AttrSpec{{Name: "a", Type: tInt(), Short: true},
+			{Name: "s", Type: sXY, HasValue: true, Value: vHash(KV{"y", vStr("dflt")})}, {Name: "l", Type: tArr(sMN), HasValue: true, Value: vArr()}}}}, []string{route},
+			[]NewReq{{T: 0, Args: []RV{vInt(1)}}, {T: 0, Args: []RV{vInt(1), yv}}, {T: 0, Named: true, Hash: []KV{{"a", vInt(1)}, {"s", yv}}},
+				{T: 0, Args: []RV{vInt(1), vHash(KV{"y", vStr("dflt")}), mv}}, {T: 0, Named: true, Hash: []KV{{"a", vInt(1)}, {"l", mv}}},
+				{T: 0, Args: []RV{vInt(1), vHash(KV{"y", vStr("dflt")}), vArr(vHash(KV{"m", vInt(3)}, KV{"n", vInt(9)}))}}}))
+		ws = append(ws, mk("corpus", []*DefSpec{{Name: "Ta", Attrs: []AttrSpec{{Name: "o", Type: tOpt(sXY), Short: true}, {Name: "v", Type: tVarU(sP), Short: true},
+			{Name: "n", Type: sNest, Short: true}, {Name: "u", Type: sNotU, Short: true}, god("g", sMN)}}}, []string{route},
+			[]NewReq{{T: 0, Args: []RV{vHash(), vHash(KV{"in", vHash()}), vHash(KV{"u", vUndef()}), yv}},
+				{T: 0, Args: []RV{vHash(), vHash(KV{"in", vHash()}), vHash(KV{"u", vUndef()})}},
+				{T: 0, Named: true, Hash: []KV{{"v", vHash()}, {"n", vHash(KV{"in", vHash(KV{"x", vInt(1)})}, KV{"q", vArr(vInt(1))})}, {"u", vHash(KV{"u", vInt(1)}, KV{"w", vStr("x")})}, {"g", vHash(KV{"m", vInt(1)})}}},
+				{T: 0, Args: []RV{vHash(KV{"p", vBool(true)}), vHash(KV{"in", vHash()}), vHash(KV{"u", vUndef()}), vUndef(), vHash(KV{"m", vInt(1)}, KV{"n", vInt(2)})}},
+				{T: 0, Args: []RV{vHash(), vHash(KV{"in", vHash()}), vHash(KV{"w", vStr("x")})}}}))
+	}
+	// a Struct attribute overridden by a narrower Struct (the member that may be left out becomes required), and a
+	// single Struct attribute (its value as the only positional argument is a Hash the named dispatcher looks at first)
+	ws = append(ws, mk("corpus", []*DefSpec{
+		{Name: "Ta", Attrs: []AttrSpec{{Name: "s", Type: sXY, Short: true}}},
+		{Name: "Tb", Parent: "Ta", Attrs: []AttrSpec{{Name: "s", Type: tStruct(sm("x", tIntR(0, 5)), sm("y", tStr())), Override: bp(true)}}},
+		{Name: "Tc", Parent: "Ta", Attrs: []AttrSpec{{Name: "s", Type: tStruct(smOpt("x", tInt()), sm("y", tStr()), smOpt("z", tInt())), Override: bp(true)}}}},
+		[]string{"text", "hash", "text"},
+		[]NewReq{{T: 0, Args: []RV{yv}}, {T: 0, Named: true, Hash: []KV{{"s", yv}}}, {T: 1, Args: []RV{yv}}, {T: 1, Args: []RV{xyv}}, {T: 1, Named: true, Hash: []KV{{"s", xyv}}}, {T: 0, Args: []RV{xyv}}}))
 	return ws
 }
 
